@@ -103,7 +103,7 @@ def case_strategy(draw, max_ops):
             cs = list(draw(st.permutations(pool)))[:k]
             op["name"] = "ix%d" % j
             op["unique"] = draw(st.booleans())
-            op["clustered"] = (not op["unique"]) and draw(st.integers(0, 3)) == 0
+            op["clustered"] = (not op["unique"]) and draw(st.integers(0, 2)) == 0
             op["cols"] = [[c, draw(st.sampled_from([None, "ASC", "DESC"])), draw(st.sampled_from([None, None, "FIRST", "LAST"]))] for c in cs]
         ops.append(op)
     undefined = None
